@@ -74,3 +74,83 @@ def simplify_op(op):
         o['by'] = 'ref'
         out.append(o)
     return out
+
+
+
+def renumber_drop(ops, created, k):
+    """Drop op k (which created child index j under parent path p, as recorded in `created`) and shift every later
+    reference to a younger sibling (p + [i], i > j) down by one.  Returns None if a later op refers to the dropped
+    child itself."""
+    p, j = created[k]
+    out = []
+    for t, op in enumerate(ops):
+        if t == k:
+            continue
+        o = op
+        for key in ('p', 'attached'):
+            path = o.get(key)
+            if t > k and isinstance(path, list) and len(path) > len(p) and path[:len(p)] == p and isinstance(path[len(p)], int):
+                i = path[len(p)]
+                if i == j:
+                    return None
+                if i > j:
+                    o = dict(o)
+                    o[key] = path[:len(p)] + [i - 1] + path[len(p) + 1:]
+        if t > k and o.get('op') in ('REMOVE', 'REPLACE') and o.get('p') == p and isinstance(o.get('i'), int) and 'reuse' not in o \
+                and 'attached' not in o and not o.get('foreign'):
+            if o['i'] == j:
+                return None
+            if o['i'] > j:
+                o = dict(o)
+                o['i'] = o['i'] - 1
+        out.append(o)
+    return out
+
+
+def created_children(ops, events):
+    """{op index: (parent path, child index)} for the ops that appended a child (successful ADD without re-use of an
+    attached node), computed from the recorded outcomes; removals make the bookkeeping unreliable, so it stops at
+    the first successful removal under the same parent."""
+    count = {}
+    created = {}
+    dirty = set()
+    for t, (op, ev) in enumerate(zip(ops, events)):
+        kind = op.get('op')
+        if kind == 'NEW' and ev.get('r') == 'ok':
+            count[(op['doc'],)] = len(op['c'].get('kids') or [])
+        p = tuple(op['p']) if isinstance(op.get('p'), list) else None
+        if p is None:
+            continue
+        if kind in ('REMOVE', 'DOT_SET', 'DEEPCOPY') or (kind == 'REPLACE'):
+            if ev.get('r') == 'ok':
+                dirty.add(p)
+        if kind == 'ADD' and ev.get('r') == 'ok' and 'attached' not in op and p not in dirty:
+            j = count.get(p, 0)
+            created[t] = (list(p), j)
+            count[p] = j + 1
+            count[p + (j,)] = len((op.get('c') or {}).get('kids') or [])
+    return created
+
+
+def shrink_siblings(ops, events, fails, budget_s=60.0, max_tests=400):
+    """Second pass for long histories: drop successful ADDs whose child nobody refers to, renumbering the paths of
+    younger siblings (plain ddmin cannot, because paths are positional)."""
+    import time as _t
+    t0 = _t.time()
+    cur, evs = list(ops), list(events)
+    tests = 0
+    k = len(cur)
+    while k > 0 and tests < max_tests and _t.time() - t0 < budget_s:
+        k -= 1
+        created = created_children(cur, evs)
+        if k not in created:
+            continue
+        cand = renumber_drop(cur, created, k)
+        if cand is None:
+            continue
+        tests += 1
+        r = fails(cand)
+        if r:
+            cur = cand
+            evs = r if isinstance(r, list) else evs[:k] + evs[k + 1:]
+    return cur, tests
